@@ -11,6 +11,13 @@ truncation to every small length incl. 0 and the sizeof(void*) neighbourhood, st
 buffer, suffixes and substrings overlapping the destination or not, the contents together with
 their terminator (which makes the string grow from its own bytes), in inline and in separate
 storage, with faults on the grow allocation.
+A fifth of the cases (kind near-*) and a step kind of the ordinary histories set successive values
+of EQUAL length that differ only where C-string functions do not look: exactly one byte after
+an embedded NUL (first / last / middle), the byte AT the NUL (NUL -> non-NUL and back), case only,
+trailing NULs appearing / disappearing, one byte behind a long common prefix (positions around
+8, 16, 32, 64 and the last byte), the identical value again; at every storage state (inline,
+separately allocated, shrunk inline, shrunk inside a larger separate buffer, separate again
+after an empty value).
 
 Direct oracle: a Python byte-string model of the property text, independent of the Coq model:
 contents = bytes of the last setter that returned 1 (or of the creation)."""
@@ -80,6 +87,135 @@ def own_strlen(c, off):
     return z.index(0)
 
 
+def _other(rng, c, avoid=()):
+    """a byte different from c (and not in avoid)"""
+    while True:
+        d = rng.choice([c ^ 1, c ^ 0x20, c ^ 0x80, rng.randrange(256)]) & 0xff
+        if d != c and d not in avoid:
+            return d
+
+
+def derive(rng, v):
+    """a value of the SAME length that differs from v only where C-string functions (strcmp,
+    strncmp, strlen, strcasecmp, word-wise compares that stop early) do not look; returns
+    (new value, operator name) or (None, None) when v is empty"""
+    n = len(v)
+    if n == 0:
+        return None, None
+    w = bytearray(v)
+    ops = ["last", "prefix", "at-nul-set", "trail-nul"]
+    nul = v.find(0)
+    if 0 <= nul < n - 1:
+        ops += ["after-nul"] * 4
+    if nul >= 0:
+        ops += ["at-nul-clear"] * 2
+    if any(65 <= (c & 0xdf) <= 90 for c in v):
+        ops += ["case"] * 2
+    if v.endswith(b"\0"):
+        ops += ["trail-nul-off"] * 2
+    op = rng.choice(ops)
+    if op == "after-nul":           # exactly one byte after the first embedded NUL: first / last / middle
+        i = rng.choice([nul + 1, n - 1, (nul + 1 + n - 1) // 2, rng.randint(nul + 1, n - 1)])
+        w[i] = _other(rng, w[i])
+    elif op == "at-nul-clear":      # the byte AT the first NUL becomes non-NUL
+        w[nul] = _other(rng, 0)
+    elif op == "at-nul-set":        # a byte becomes NUL (incl. the first one): everything after it is hidden
+        i = rng.choice([0, n - 1, n // 2, rng.randrange(n)])
+        if w[i] == 0:
+            w[i] = _other(rng, 0)
+        else:
+            w[i] = 0
+    elif op == "case":              # case only
+        idx = [i for i, c in enumerate(v) if 65 <= (c & 0xdf) <= 90]
+        for i in rng.sample(idx, rng.choice([1, 1, len(idx)])):
+            w[i] ^= 0x20
+    elif op == "trail-nul":         # the last k bytes become NUL, same total length
+        k = rng.choice([1, 1, 2, min(n, 3), rng.randint(1, n)])
+        if all(c == 0 for c in w[n - k:]):
+            w[n - 1] = _other(rng, 0)
+        else:
+            w[n - k:] = bytes(k)
+    elif op == "trail-nul-off":     # trailing NULs replaced by data
+        i = n
+        while i > 0 and w[i - 1] == 0:
+            i -= 1
+        j = rng.randint(i, n - 1)
+        for q in range(j, n):
+            w[q] = _other(rng, 0)
+    elif op == "prefix":            # long common prefix: one byte at a word / vector boundary or at the end
+        cands = [i for i in (7, 8, 9, 15, 16, 17, 31, 32, 33, 63, 64, 65, n - 2, n - 1) if 0 <= i < n]
+        i = rng.choice(cands)
+        w[i] = _other(rng, w[i])
+    else:                           # only the last byte
+        w[n - 1] = _other(rng, w[n - 1])
+    return bytes(w), op
+
+
+NEAR_LENS = [1, 2, 3, 5, 7, 8, 9, 12, 16, 17, 31, 32, 33, 40, 64, 65, 70, 130]
+
+
+def near_value(rng, n):
+    """a value with an embedded NUL early or in the middle, letters, and a tail after the NUL"""
+    w = bytearray(rng.choice(b"abcXYZ09 /\\\xff\x80") for _ in range(n))
+    r = rng.random()
+    if n >= 2 and r < 0.75:
+        w[rng.choice([0, 1, 2, n // 2, n - 2, rng.randrange(n - 1)]) % (n - 1)] = 0
+        if r < 0.2:
+            w[rng.randrange(n)] = 0
+    return bytes(w)
+
+
+def gen_near(rng):
+    """histories of successive equal-length values that differ only where C-string functions do
+    not look, at every storage state: inline, separately allocated, just shrunk (inline or
+    inside a larger separate buffer)"""
+    n = rng.choice(NEAR_LENS)
+    v = near_value(rng, n)
+    state = rng.choice(["inline", "separate", "shrunk-inline", "shrunk-separate", "regrown"])
+    steps = []
+    if state == "inline":
+        create = "L%s,%d" % (hexs(v), n)
+    elif state == "separate":
+        # creation length below n: the next set allocates
+        m = rng.randint(0, n - 1)
+        create = "L%s,%d" % (hexs(rbytes(rng, m)), m)
+        steps.append("l%s,%d" % (hexs(v), n))
+    elif state == "shrunk-inline":
+        m = n + rng.choice([1, 2, 8, 30])
+        create = "L%s,%d" % (hexs(rbytes(rng, m)), m)
+        steps.append("l%s,%d" % (hexs(v), n))
+    elif state == "shrunk-separate":
+        m = rng.randint(0, max(0, n - 1))
+        big = n + rng.choice([1, 2, 8, 30])
+        create = "L%s,%d" % (hexs(rbytes(rng, m)), m)
+        steps.append("l%s,%d" % (hexs(rbytes(rng, big)), big))
+        steps.append("l%s,%d" % (hexs(v), n))
+    else:                           # separate -> empty (inline again) -> separate
+        m = rng.randint(0, max(0, n - 1))
+        create = "L%s,%d" % (hexs(rbytes(rng, m)), m)
+        steps.append("l%s,%d" % (hexs(v), n))
+        steps.append("l-,0")
+        steps.append("l%s,%d" % (hexs(v), n))
+    for _ in range(rng.randint(1, 7)):
+        nv, op = derive(rng, v)
+        if nv is None:
+            break
+        r = rng.random()
+        if r < 0.12:
+            steps.append("g")
+        if r > 0.9 and 0 not in nv:
+            steps.append("z%s" % hexs(nv))              # strlen-based setter, NUL-free value
+        elif r > 0.8:
+            steps.append("l%s,%d" % (hexs(nv + rbytes(rng, 2)), n))   # longer source, same length
+        else:
+            steps.append("l%s,%d" % (hexs(nv), n))
+        v = nv
+        if rng.random() < 0.15:                         # the same value again (really unchanged)
+            steps.append("l%s,%d" % (hexs(v), n))
+    ns = 1 if rng.random() < 0.25 else 0
+    return ("str %d %s %s" % (ns, create, ";".join(steps)), {"kind": "near-" + state})
+
+
 def pick_len(rng, cur, l0):
     cands = [0, 0, 1, cur - 1, cur, cur + 1, cur + 1, l0 - 1, l0, l0 + 1, 7, 8, 9, cur // 2, cur * 2 + 1,
              rng.randint(0, 24), rng.randint(0, 24), rng.randint(0, 300)]
@@ -90,6 +226,9 @@ def gen(rng, tier):
     n = 3000 if tier == "quick" else 60000
     out = []
     for ci in range(n):
+        if rng.random() < 0.2:
+            out.append(gen_near(rng))
+            continue
         kind = "mixed"
         ns = 1 if rng.random() < 0.25 else 0
         shadow = None        # contents while known exactly (no fault since), to aim own-buffer sources
@@ -117,7 +256,13 @@ def gen(rng, tier):
             r = rng.random()
             if r < 0.06:
                 steps.append("g")
-            elif r < 0.22 and shadow is not None:
+            elif r < 0.16 and shadow:
+                # the next value differs from the current one only where C-string functions do not look
+                nv, op = derive(rng, shadow)
+                steps.append("l%s,%d" % (hexs(nv), len(nv)))
+                shadow = nv
+                cur = len(nv)
+            elif r < 0.30 and shadow is not None:
                 # source = the node's own buffer + offset: in-place truncation, suffix or
                 # substring (overlapping the destination or not), the contents with their NUL
                 n = len(shadow)
